@@ -349,6 +349,3 @@ if __name__ == "__main__":
         emit_json(model_cases(payload))
     elif payload["fn"] == "oracle":
         emit_json(oracle(payload))
-    else:
-        import c13_oracle
-        emit_json(getattr(c13_oracle, payload["fn"])(payload))
